@@ -71,6 +71,19 @@ def table_rules(ctx, I, pid):
         ctx.violation('TABLES-LEAP', 'TABLES:LEAP_MONTH_YEAR:gaps', 'successive leap years %d and %d are %d years apart (intercalations are 2-3 years apart outside the reform windows %s): %d such pairs' % (bad[0][0], bad[0][1], bad[0][2], sorted(special), len(bad)), {'bad': bad[:10]}, len(ly))
     else:
         ctx.ok('TABLES-LEAP', len(ly), {'gaps_checked': len(ly) - 1, 'reform_years': sorted(special)})
+    # the same rhythm counted in lunations: successive leap months are 28..37 lunations apart (mean 33.6); a year typo moves that by 12-13
+    lyl = sorted((y, m) for m, ys in tbl.items() for y in ys)
+    badl = []
+    for (y1, m1), (y2, m2) in zip(lyl, lyl[1:]):
+        n = 12 * (y2 - y1) + (m2 - m1) + 1
+        if not 28 <= n <= 37:
+            if any(abs(y1 - s) <= 2 or abs(y2 - s) <= 2 for s in special):
+                continue
+            badl.append(((y1, m1), (y2, m2), n))
+    if badl:
+        ctx.violation('TABLES-LEAP', 'TABLES:LEAP_MONTH_YEAR:lunation-interval', 'leap month %s is followed by leap month %s after %d lunations (28..37 expected outside the reform windows %s): %d such pairs' % (badl[0][0], badl[0][1], badl[0][2], sorted(special), len(badl)), {'bad': badl[:10]}, len(lyl))
+    else:
+        ctx.ok('TABLES-LEAP', len(lyl), {'lunation_intervals_checked': len(lyl) - 1})
     # 19-year rhythm: any 19 consecutive lunar years contain 6..8 leap months (7 in the mean)
     bad19 = []
     s = set(ly)
@@ -166,13 +179,19 @@ def anchor_rule(ctx, tbl):
 
 
 def run(ctx, pid='C03'):
+    from rules import shared
+    ctx.include('solver_structure', shared.solver_structure)   # the day-level term / new-moon solvers fall back to the precise solver near civil midnight
+    ctx.include('month_records', shared.month_records)   # leap table, solstice anchor, month memo, memo cells (shared, cached per source hash)
     I = ctx.interp(fuel=100000000)
     t = T(I)
     p = ctx.prog
-    tbl = table_rules(ctx, I, pid)
-    if tbl is not None:
-        anchor_rule(ctx, tbl)
+    try:
+        tbl = leap_table(I)
+    except (Unanalysable, Bottom):
+        tbl = None
     if pid == 'C04':
+        from rules import shared as _sh
+        ctx.include('month_records', _sh.month_records)
         ctx.not_decided.append('agreement of the stored table and the month offsets with the library\'s own new-moon and major-term days (a relation between a literal and two float series)')
         return ('necessary conditions on the stored leap-month table (decoded by evaluating its own initialiser): column order, range, one leap month per year, '
                 '2-3 year intercalation gaps outside the code\'s own reform windows, 7+-1 leap months per 19 years; and the solstice-month anchoring logic of '
